@@ -106,7 +106,10 @@ theorem applied_evm {E : Env} {s : St} {acc : Acc} {m : Msg} {rc : Receipt}
       (applyMsg E s acc m).st.refund = 0 ∧
       (applyMsg E s acc m).acc.used = (acc.used + rc.gasUsed) % U64 ∧
       (applyMsg E s acc m).acc.rewards = acc.rewards + ((m.f.price * rc.gasUsed : Nat) : Int) ∧
-      rc.cumulative = (applyMsg E s acc m).acc.used := by
+      rc.cumulative = (applyMsg E s acc m).acc.used ∧
+      rc.gasUsed = m.f.gasLimit - (E.evm m (callWorld m (worldAfterBuy s m)) s.refund (m.f.gasLimit - ig)).gasLeft ∧
+      rc.failed = ((E.evm m (callWorld m (worldAfterBuy s m)) s.refund (m.f.gasLimit - ig)).vmerr != .none) ∧
+      (E.evm m (callWorld m (worldAfterBuy s m)) s.refund (m.f.gasLimit - ig)).vmerr ≠ .insufficientBalance := by
   obtain ⟨herr, hrc, hst, hacc⟩ := applyMsg_ok h
   have hconv : E.conv m = evmConv E.evm := by unfold Env.conv; simp [hns]
   have hsafe : ConvSafe (evmConv E.evm) m := evmConv_safe hE.gas_le
@@ -120,7 +123,8 @@ theorem applied_evm {E : Env} {s : St} {acc : Acc} {m : Msg} {rc : Receipt}
   have hused : gasUsedOf m.f.gasLimit eo.gasLeft = m.f.gasLimit - eo.gasLeft := gasUsedOf_eq (by omega) hlim
   have hg : rc.gasUsed = m.f.gasLimit - eo.gasLeft := by rw [hrc]; simp only; rw [hgas, hrep, hused]
   have hfl : rc.failed = (eo.vmerr != .none) := by rw [hrc]; simp only; rw [hfailed, hf]
-  refine ⟨ig, min (rc.gasUsed / 2) eo.refund, hig, hn, hb, hp, by omega, by omega, by rw [heo], ?_, ?_, ?_, ?_, ?_, ?_, ?_⟩
+  refine ⟨ig, min (rc.gasUsed / 2) eo.refund, hig, hn, hb, hp, by omega, by omega, by rw [heo], ?_, ?_, ?_, ?_, ?_, ?_, ?_,
+    by rw [heo]; exact hg, by rw [heo]; exact hfl, by rw [heo]; exact hv⟩
   · -- nonce
     rw [hst, hstate]
     simp only [hw, ha, hr]
